@@ -1,9 +1,14 @@
-(* Model/C03Hist.v — wave 5: histories on ONE sparse object.  S[sub] = v for a single subscript row of full width
-   (pyttb.sptensor.__setitem__ -> _set_subscripts): tt_ismember_rows locates the row; an existing entry is overwritten in place
-   (group A), removed when v == 0 (group B: the other rows keep their order), a new nonzero is appended (group C), a new zero
-   stores nothing; the shape grows to max(dim, sub + 1) IN EVERY CASE.  The request after such an assignment must be answered
-   from the tensor as it is now: spec of `hist:<op0>,<op1>` cases = element-wise specification on sp_assigns of the literal
-   initial operand.  Definitions only. *)
+(* Model/C03Hist.v — wave 5: histories on ONE sparse object.  A single-element assignment, in both spellings of
+   pyttb.sptensor.__setitem__:
+     S[i1, ..., iN] = v      -> _set_subtensor, scalar right-hand side: the shape is resized first (max(dim, i + 1) per mode), a zero
+                                deletes what occupies the position (subdims + setdiff1d), a nonzero replaces the existing value
+                                (tt_intersect_rows) or is appended (tt_setdiff_rows);
+     S[M] = v, M a 1 x N array -> _set_subscripts: tt_ismember_rows locates the row; group A overwrite in place, group B remove
+                                (the other rows keep their order), group C append; a new zero stores nothing; resize at the end.
+   Both have the same effect on the stored lists: sp_assign.  The shape grows IN EVERY CASE (also for a zero assigned outside).
+   The request after such an assignment must be answered from the tensor as it is now: the correspondence cases
+   `hist:<op0>,<op1>` require the object's stored lists to BE sp_assigns of the literal initial operand (hist_state_ok) and every
+   result to denote the element-wise specification on that tensor.  Definitions only. *)
 From Coq Require Import List ZArith Bool Arith.
 From PV Require Import Base.Index Np.Array Model.Sparse Model.Harness Model.C03Ops Model.C03Gen Model.C03Chk.
 Import ListNotations.
@@ -21,6 +26,10 @@ Definition sp_assign (A : sparse V) (sub : idx) (v : V) : sparse V :=
 Definition sp_assigns (A : sparse V) (l : list (idx * V)) : sparse V :=
   fold_left (fun X p => sp_assign X (fst p) (snd p)) l A.
 End Assign.
+
+(* the dense reading of a history of element assignments at position i: the LAST assignment to i wins, else the old value d *)
+Definition hist_lookup {V} (l : list (idx * V)) (i : idx) (d : V) : V :=
+  fold_left (fun acc p => if idx_eqb i (fst p) then snd p else acc) l d.
 
 (* the stored lists of the object after the assignments ARE the lists of the model (stored order included) *)
 Definition hist_state_ok (O A0 : sparse Z) (l : list (idx * Z)) : bool := sp_raw_eqb O (sp_assigns zisz A0 l).
